@@ -1,5 +1,6 @@
 import Irismod.Props.Tie_Random
 open Irismod.Props.Tie Irismod.Gen.PureRandom Irismod.Sdk
+#print axioms random_effects_pinned
 #print axioms random_guards_pinned
 #print axioms random_all_translated
 #print axioms random_translated_pinned
